@@ -61,6 +61,18 @@ CHECKS = {
             "The model follows DPDA.read_input_stepwise AFTER the repair of DESIGN section 8 row 1 (acceptance test on the start "
             "configuration); on a tree without that repair the check reports the defect as a VIOLATION. A stack symbol '' (PDAStack.top() "
             "answers '' on an empty stack) is outside the modelled domain.", "7/C02"),
+    "C08": ("Coq theorems about executable models of the nine NFA operations (+ eliminate_lambda, + finite compositions) and "
+            "differential correspondence against /repo via the extracted model and an independent word-level oracle",
+            "Proved for all valid NFA operands (unbounded states, alphabets, words): union, concatenate, kleene_star, option, reverse, "
+            "intersection, shuffle_product, right_quotient, left_quotient (model = repaired code) each return Ok with a valid NFA whose "
+            "language is exactly the textbook operation of Spec/Lang.v; eliminate_lambda preserves the language and leaves no empty-string "
+            "edge; every finite composition (expression tree) of the operations evaluates without error to the composed language. union, "
+            "concatenate and reverse additionally assume rows_keyed (every transition row belongs to a state). Nothing partial. Model tied "
+            "to the code per case by valid + exact language equality (verified comparator, explicit fuel) and by a word-level oracle on all "
+            "words up to length 5 (4 for 3 symbols); operators + | & included.",
+            "Known defect demonstrated on the unchanged tree: left_quotient raises MissingStateError (DESIGN 8 row 3). Open known finding: "
+            "nfa_stray_transition_row (a row keyed by a non-state passes validate(); union/concatenate raise KeyError, reverse "
+            "InvalidStateError).", "7/C08"),
 }
 
 PENDING = {}
